@@ -36,14 +36,18 @@ THEOREMS = [
 ]
 ASSUMPTIONS = [
     "uuid4 ids are drawn from an abstract fresh supply; no link of the file is named like an id not yet drawn "
-    "(NamesNotFuture; part of C03's invariant WF of reachable states)",
-    "argument classes the structural model abstracts from (dtype, data, position, ticks, labels, unit, label …) enter "
+    "(NamesNotFuture; part of C03's invariant WF of reachable states); '<name>-positions' / '<name>-extents' are not "
+    "ids of the supply",
+    "argument classes the structural model abstracts from (dtype, data, position, ticks, labels, unit, label ...) enter "
     "as a Fault = (stage of the Python function at which the argument makes it raise, error class); the mapping "
-    "concrete argument -> (stage, class) is part of the harness (table FAULTS) and exercised by the correspondence",
+    "concrete argument -> (stage, class) is the harness table FAULTS, exercised by the correspondence",
     "dimension descriptors of an array are named 1..n (DimsDense; delete_dimensions removes all of them)",
-    "HDF5 frees / hides unlinked objects: a rolled-back entity is modelled as an unlinked node",
+    "HDF5 hides unlinked objects: a rolled-back entity is modelled as an unlinked node, which `Unch` allows",
+    "the theorems quantify over every graph with C03's invariant (every state reachable when refused calls leave the "
+    "graph literally unchanged); that the invariant also survives the unlinked leftovers of the writer semantics is "
+    "not proved - the correspondence runs the model on the writer-reached graphs throughout",
     "array data, property values and dataset extents are outside the structural model (leaf nodes): refusals of "
-    "data-level calls (append, setters writing datasets) are covered by the implementation-side oracle only",
+    "data-level calls (DataSet.append, setters writing datasets) are covered by the implementation-side oracle only",
 ]
 TRUSTED_EXTRA = ["harness/lib/storeimpl.py + storegen.py (path addressing by iteration, HDF5-level dump with h5py)",
                  "harness/props/c12.py FAULTS table (concrete invalid argument -> stage and error class)"]
